@@ -203,18 +203,24 @@ class ProofState():
             prf.items[cur_id.last()] = item
         self.check_proof(compute_only=True)
 
-        # Test if the goals are already proved:
-        for item in new_prf.items:
+        # Test if the goals are already proved. Removing a line changes the
+        # ids of the lines after it, so the new goals are visited from the
+        # last to the first, and the ids of the remaining ones are adjusted.
+        remaining = []
+        for item in reversed(new_prf.items):
             if item.rule == 'sorry':
                 new_id = self.find_goal(self.get_proof_item(item.id).th, item.id)
                 if new_id is not None:
                     self.replace_id(item.id, new_id)
+                    remaining = [gap_id.decr_id(item.id) for gap_id in remaining]
+                else:
+                    remaining.append(item.id)
 
         # Resolve trivial subgoals
-        for item in new_prf.items:
-            if item.rule == 'sorry':
-                if logic.trivial_macro().can_eval(item.th.prop):
-                    self.set_line(item.id, 'trivial', args=item.th.prop)
+        for gap_id in remaining:
+            gap_th = self.get_proof_item(gap_id).th
+            if logic.trivial_macro().can_eval(gap_th.prop):
+                self.set_line(gap_id, 'trivial', args=gap_th.prop)
 
     def parse_steps(self, steps):
         """Parse and apply a list of steps to self.
